@@ -765,8 +765,11 @@ expr_eval_move(struct expr *ex, struct expr_eval_arg *ea)
 static int
 expr_eval_neg(struct expr *ex, struct expr_eval_arg *ea)
 {
+	struct match *last, *mh;
+
 	assert(ex->ex_rhs == NULL);
 
+	last = TAILQ_LAST(ea->ea_ml, match_list);
 	switch (expr_eval(ex->ex_lhs, ea)) {
 	case EXPR_ERROR:
 		return EXPR_ERROR;
@@ -774,8 +777,11 @@ expr_eval_neg(struct expr *ex, struct expr_eval_arg *ea)
 		return EXPR_MATCH;
 	}
 
-	/* No match, invalidate match below current expression. */
-	matches_clear(ea->ea_ml);
+	/* No match, invalidate matches below current expression. */
+	while ((mh = TAILQ_LAST(ea->ea_ml, match_list)) != last) {
+		TAILQ_REMOVE(ea->ea_ml, mh, mh_entry);
+		match_free(mh);
+	}
 	return EXPR_NOMATCH;
 }
 
